@@ -67,7 +67,12 @@ impl<T> InnerQueue<T> {
         match self.queue.pop() {
             Some(data) => Ok(data),
             None => match self.tx_ports.load(Ordering::Acquire) {
-                0 => Err(RecvTimeoutError::Disconnected),
+                0 => {
+                    // we took the disconnect permit, put it back so that
+                    // every other/later receiver would also see it
+                    self.sem.post();
+                    Err(RecvTimeoutError::Disconnected)
+                }
                 _n => unreachable!("mpmc recv found no data"),
             },
         }
@@ -84,7 +89,12 @@ impl<T> InnerQueue<T> {
         match self.queue.pop() {
             Some(data) => Ok(data),
             None => match self.tx_ports.load(Ordering::Acquire) {
-                0 => Err(TryRecvError::Disconnected),
+                0 => {
+                    // we took the disconnect permit, put it back so that
+                    // every other/later receiver would also see it
+                    self.sem.post();
+                    Err(TryRecvError::Disconnected)
+                }
                 _ => unreachable!("mpmc try_recv found no data"),
             },
         }
@@ -99,9 +109,11 @@ impl<T> InnerQueue<T> {
             1 => {
                 // there is no tx port any more
                 // should tell all the waited rx to come back
-                while self.sem.get_value() == 0 {
-                    self.sem.post();
-                }
+                // post exactly one extra "disconnect" permit, it's sticky:
+                // a receiver that gets it (pop returns None) would post it
+                // back, so the blocked receivers are woken up one by one and
+                // any later receiver would find it after the queue is drained
+                self.sem.post();
             }
             n if n > 1 => {}
             n => panic!("bad number of tx_ports left {n}"),
